@@ -31,6 +31,10 @@ CONSTANTS NA,          \* number of azimuths (1 = traditional)
           Boxes,       \* set of <<fl, fh, al, ah>>: boxes an analyst may draw in the interactive manual rejection
                        \* (frequency bounds on the half-step lattice, amplitude bounds in half levels, all strict)
           SThr,        \* rational: 0.01 / (Hz per grid step), threshold of |sigma_after - sigma_before| in grid steps
+          ZeroExact,   \* TRUE: the instance's frequencies are small multiples of a power of two (grid step 1/64 Hz), so every sum,
+                       \* mean and deviation of equal or symmetric peak sets is computed exactly: a quantity that is zero in the
+                       \* rationals is computed as 0.0 and the "== 0" guards of the code are decided - the P tier does not leave
+                       \* them open
           DFree,       \* TRUE: lognormal fn - the criterion on |mean fn - mean-curve peak| involves exp() of
                        \* rationals and is left open (both outcomes) in the P tier; everything else stays exact
           Export
@@ -118,7 +122,7 @@ Verdicts(mode, mub, varb, mua, vara, mcb, mca) ==
         \* is a rounding matter (mean(0.08, 0.06, 0.04) # 0.06 in binary), so the P tier leaves the verdict open
         \* there, like every other exact tie.  The same holds for a zero variance (all peaks equal: the mean of three times
         \* 0.006 is not 0.006 in binary, the standard deviation comes out as 1e-19): the code's "== 0" guards may or may not fire.
-        IF RIsZero(varb) \/ RIsZero(vara) \/ RIsZero(db) THEN (IF mode = "P" THEN {"stop", "cont"} ELSE {"stop"})
+        IF RIsZero(varb) \/ RIsZero(vara) \/ RIsZero(db) THEN (IF mode = "P" /\ ~ZeroExact THEN {"stop", "cont"} ELSE {"stop"})
         ELSE
         LET da   == RAbs(RSub(mua, R(mca)))
             dd   == RDiv(RAbs(RSub(da, db)), db)
